@@ -14,8 +14,6 @@ def SameFooter (E : Nat) (rf : Chunk) (rid : Option Nat) : Prop :=
   | none => rf.footer = E
   | some a => rf.footer = a ∧ a ≠ E
 
-theorem bindO_ok {α β : Type} (s : St) (a : α) (f : St → α → St × Outcome β) : bindO (s, Outcome.ok a) f = f s a := rfl
-
 theorem gen_rewind_core (E : Nat) (rf : Chunk) (rid : Option Nat) (rp slot : Nat) (s : St)
     (hne : HeadNotStatic E s.a) (hrf : SameFooter E rf rid)
     (g : Nat → Nat → Chunk → Nat → Nat → St → St × Outcome Unit)
